@@ -209,10 +209,12 @@ def find(
             # Process include files.
             # These modify the file_platform instance, but we throw away
             # the active nodes after processing is complete.
+            # They are searched for from the directory of the source file
+            # itself, also when the entry names it through a symbolic link.
             for include in e["include_files"]:
                 include_file = file_platform.find_include_file(
                     include,
-                    os.path.dirname(e["file"]),
+                    os.path.dirname(state._get_realpath(e["file"])),
                 )
                 if include_file:
                     state.insert_file(include_file)
